@@ -29,7 +29,11 @@ pub struct OpCase {
     pub a: Comp,
     pub b: Comp,
     pub parens: bool,
-    pub comma_spaces: u8,
+    pub comma_spaces: u16,
+    /// a long run of blanks (optional spaces are unbounded in the grammar) put before the first binary operator of the
+    /// first component when it has one, otherwise after the comma
+    #[serde(default)]
+    pub long_run: u16,
     pub lead_space: bool,
     pub points: Vec<(f64, f64)>,
 }
@@ -43,6 +47,10 @@ fn render_term(t: &Term) -> (bool, String) {
 }
 
 fn render_comp(c: &Comp) -> String {
+    render_comp_run(c, 0)
+}
+
+fn render_comp_run(c: &Comp, long_run: u16) -> String {
     let mut s = String::new();
     for (i, t) in c.terms.iter().enumerate() {
         let (neg, body) = render_term(t);
@@ -55,6 +63,11 @@ fn render_comp(c: &Comp) -> String {
         } else {
             // "x+1/2", "x +1/2", "x+ 1/2", "x + 1/2": blanks on either side of a binary operator
             let (before, after) = c.sp[i.min(c.sp.len() - 1)];
+            if i == 1 {
+                for _ in 0..long_run {
+                    s.push(' ');
+                }
+            }
             if before {
                 s.push(' ');
             }
@@ -76,9 +89,10 @@ pub fn render(c: &OpCase) -> String {
     if c.lead_space && !c.parens {
         // leading blank only without parentheses (trim of braces happens first in any reader)
     }
-    s.push_str(&render_comp(&c.a));
+    let in_first = c.a.terms.len() >= 2;
+    s.push_str(&render_comp_run(&c.a, if in_first { c.long_run } else { 0 }));
     s.push(',');
-    for _ in 0..c.comma_spaces {
+    for _ in 0..(c.comma_spaces as u32 + if in_first { 0 } else { c.long_run as u32 }) {
         s.push(' ');
     }
     s.push_str(&render_comp(&c.b));
@@ -181,6 +195,6 @@ pub fn decode_case(b: &[u8]) -> OpCase {
     let a = decode_comp(b.get(0..6).unwrap_or(&[]));
     let bb = decode_comp(b.get(6..12).unwrap_or(&[]));
     let pt = |i: usize| (get(i) as f64 / 32. - 4., get(i + 1) as f64 / 32. - 4.);
-    OpCase { a, b: bb, parens: get(12) & 1 == 1, comma_spaces: get(12) >> 6, lead_space: false, points: vec![pt(13), pt(15), (1., 0.), (0., 1.), (0.37, -2.25)] }
+    OpCase { a, b: bb, parens: get(12) & 1 == 1, comma_spaces: (get(12) >> 6) as u16, long_run: if get(12) & 0x3e == 0x3e { 200 + get(17) as u16 * 2 } else { 0 }, lead_space: false, points: vec![pt(13), pt(15), (1., 0.), (0., 1.), (0.37, -2.25)] }
 }
 
